@@ -319,11 +319,9 @@ theorem mvp60_regonly_never_panics (app : App) (hw : WfApp app) (hc : Model.Mvp6
     (Proofs.Mvp60Sl.tgtOk_of_spec app hw (Proofs.Mvp60Sl.jclass_all hj) ctx m hR fuel hwf) w
 
 /-- Non-vacuity: the hypotheses hold for `Proofs.Mvp60JumpWitness.earlyApp` (well-formed, in the class, the specification run
-returns), and its run on one unit ends — past the end (R60-defect-1), not with a panic -/
+returns) -/
 example : WfApp Proofs.Mvp60JumpWitness.earlyApp ∧ Model.Mvp60.RegOnlyWf Proofs.Mvp60JumpWitness.earlyApp = true ∧
-    (Spec.run (specProg Proofs.Mvp60JumpWitness.earlyApp) { regs := Array.replicate 32 0#32, mem := Array.replicate 64 0#8 } 200).stop = .ret ∧
-    (Model.Mvp60.run Proofs.Mvp60JumpWitness.earlyApp Proofs.Mvp60SlWitness.ctx0 1 1 20000).halt = some .offEnd :=
-  ⟨Proofs.Mvp60JumpWitness.early_wf, Proofs.Mvp60JumpWitness.early_class.1, Proofs.Mvp60JumpWitness.early_spec,
-   Proofs.Mvp60JumpWitness.early_p1_halt⟩
+    (Spec.run (specProg Proofs.Mvp60JumpWitness.earlyApp) { regs := Array.replicate 32 0#32, mem := Array.replicate 64 0#8 } 200).stop = .ret :=
+  ⟨Proofs.Mvp60JumpWitness.early_wf, Proofs.Mvp60JumpWitness.early_class.1, Proofs.Mvp60JumpWitness.early_spec⟩
 
 end Props.C07
